@@ -118,8 +118,9 @@ CLAIMS["C08"] = {
 }
 
 CLAIMS["C16"] = {
-    "technique": "static analysis: sink/argument analysis and dominance in save_object (atomic replace protocol), sibling agreement between svalue_save_size and save_svalue (switch case sets, constant and per-iteration store counts vs accounted sizes), store-after-parse ordering in safe_restore_svalue, dominance of the inherit recursion over every use of num_variables_defined in the variable-layout walkers",
-    "text": "Decides the structural clauses: a save can only replace the final file by rename() of a fully written, successfully closed temporary derived from the approved path, and failures remove the temporary; "
+    "technique": "static analysis: sink/argument analysis and dominance in save_object (atomic replace protocol), sibling agreement between svalue_save_size and save_svalue (switch case sets, constant and per-iteration store counts vs accounted sizes), store-after-parse ordering in safe_restore_svalue, dominance of the inherit recursion over every use of num_variables_defined in the variable-layout walkers, must-pass-through of a NUL test in every delimiter-scanning loop of the string readers, type-width check of decimal accumulators and digit loops, call-cycle (SCC) analysis with counter-guard dominance for the recursion over nesting, may-raise effect analysis over the region where the temporary stream is open, writer/reader escape-table agreement, printf-format analysis of float conversions",
+    "text": "Decides the structural clauses: a save can only replace the final file by rename() of a fully written, successfully closed temporary derived from the approved path, failures remove the temporary, the stream is closed on every exit and nothing can leave by error() while it is open (except what a dry run already executed); "
+            "every recursion cycle over the nesting of a value is bounded by a counter test or confined behind the bounded size pass, and the shared nesting counter is cleared when a compound restore starts; string readers test for the end of the text in every scanning loop; integers are accumulated and printed at 64 bits with an unsigned magnitude; every character the readers interpret is escaped by the writer, and floats are printed with a format that keeps them floats, identically in both passes; "
             "the size pass and the write pass of the serializer handle the same tags and never write more constant/delimiter bytes than were accounted, and callers allocate exactly that size; "
             "the no-clear restore stores into the variable only after a successful parse; every walker of the variable layout (save, restore, lookup) accounts for a program's inherited subtree before its own variables. Round-trip equality of values and robustness of the restore parser on arbitrary text are behavioural and not decided.",
     "design_ref": "DESIGN.md §5 C16",
